@@ -213,6 +213,7 @@ def main():
         plan = []   # (harness, cfg, role)
         for h in harnesses:
             cfgs = h['configs'][tier] if tier in h['configs'] else h['configs']['quick']
+            if '--cfg' in args: cfgs = [json.loads(args[args.index('--cfg') + 1])]      # experiment: one ad-hoc configuration
             kf = [k for k in known if k['harness'] == h['name']]
             excl = {k['exclude_define']: None for k in kf}
             for c in cfgs: plan.append((h, dict(c, **excl), 'main'))
@@ -223,6 +224,11 @@ def main():
             for sd in h.get('selftests', []):
                 sdn = sd if isinstance(sd, str) else sd['define']
                 plan.append((h, dict(c0, **{sdn: None}), 'selftest:' + sdn))
+        _seen = set(); _uniq = []
+        for it in plan:      # identical (harness, configuration, role) entries would collide in the work directory
+            key = (it[0]['name'], cfgname(it[1]), it[2])
+            if key not in _seen: _seen.add(key); _uniq.append(it)
+        plan = _uniq
         # ---- build + run
         def do(item):
             h, cfg, role = item
